@@ -18,15 +18,15 @@ Definition is_invocation_entry (c : call) : bool :=
 Definition entry_kind (c : call) : string := if String.eqb (c_type c) "CreatorClass" then "new" else "call".
 Definition entry_name (c : call) : string := if String.eqb (c_type c) "CreatorClass" then c_node c else c_fn c.
 
-(* runes are bytes for the ASCII identifiers of conventional units *)
+(* columns count characters (ANTLR's char position): the text of [len] characters after [col] characters of the line *)
 Definition cut (lines : list string) (line col len : nat) : string :=
-  take len (drop col (nth (line - 1) lines "")).
+  take_runes len (drop_runes col (nth (line - 1) lines "")).
 
 Definition call_ok (lines : list string) (x : xcall) (c : call) : list string :=
   ((if String.eqb (x_kind x) (entry_kind c) && String.eqb (x_name x) (entry_name c) then [] else ["calls_order"]) ++
    (if String.eqb (x_kind x) "call" then
       (if Nat.eqb (p_sl (c_pos c)) (x_line x) && Nat.eqb (p_sc (c_pos c)) (x_col x) &&
-          Nat.eqb (p_ec (c_pos c)) (x_col x + String.length (x_name x)) &&
+          Nat.eqb (p_ec (c_pos c)) (x_col x + rune_count (x_name x)) &&
           String.eqb (cut lines (p_sl (c_pos c)) (p_sc (c_pos c)) (p_ec (c_pos c) - p_sc (c_pos c))) (x_name x)
        then [] else ["position"]) ++
       (if String.eqb (x_node x) "" || (String.eqb (c_node c) (x_node x) && String.eqb (c_pkg c) (x_pkg x))
